@@ -43,7 +43,6 @@ import (
 	"golang.org/x/mod/semver"
 	"golang.org/x/telemetry/godev/internal/config"
 	. "golang.org/x/telemetry/godev/internal/verifh/vhlib"
-	tconfig "golang.org/x/telemetry/internal/config"
 	"golang.org/x/telemetry/internal/telemetry"
 )
 
@@ -65,13 +64,15 @@ var verifUploadConfig = telemetry.UploadConfig{
 	SampleRate: 1,
 	Programs: []*telemetry.ProgramConfig{
 		{Name: "golang.org/x/tools/gopls", Versions: []string{"v0.10.1", "v0.11.0"},
-			Counters: []telemetry.CounterConfig{{Name: "editor:{emacs,vim,vscode,other}", Rate: 0.01}, {Name: "plain", Rate: 1}},
-			Stacks:   []telemetry.CounterConfig{{Name: "gopls/bug", Rate: 1, Depth: 16}}},
+			Counters: []telemetry.CounterConfig{{Name: "editor:{emacs,vim,vscode,other}", Rate: 0.01}, {Name: "plain", Rate: 1},
+				{Name: "single:{only}", Rate: 1}, {Name: "trail:{a,}", Rate: 1}},
+			Stacks: []telemetry.CounterConfig{{Name: "gopls/bug", Rate: 1, Depth: 16}}},
 		{Name: "cmd/go", Versions: []string{"go1.20", "go1.20.1"},
-			Counters: []telemetry.CounterConfig{{Name: "go/invocations", Rate: 1}, {Name: "flag:{a,b}", Rate: 1}}},
+			Counters: []telemetry.CounterConfig{{Name: "go/invocations", Rate: 1}, {Name: "flag:{a,b}", Rate: 1},
+				{Name: "go/build/flag:{buildmode}", Rate: 1}, {Name: "empty:{}", Rate: 1}}},
 		// a second entry for the same program: the index is the union
 		{Name: "cmd/go", Versions: []string{"go1.21.0"},
-			Counters: []telemetry.CounterConfig{{Name: "go/extra", Rate: 1}},
+			Counters: []telemetry.CounterConfig{{Name: "go/extra", Rate: 1}, {Name: "open:{x,y", Rate: 1}},
 			Stacks:   []telemetry.CounterConfig{{Name: "go/crash", Rate: 1, Depth: 8}}},
 	},
 }
@@ -95,7 +96,7 @@ func cfgTokens() []string {
 		t = append(t, list(p.Versions)...)
 		var cs []string
 		for _, cc := range p.Counters {
-			cs = append(cs, tconfig.Expand(cc.Name)...) // the real expansion
+			cs = append(cs, cc.Name) // the configured (collapsed) name; the model expands it by the documented rule
 		}
 		t = append(t, list(cs)...)
 		var ss []string
@@ -210,7 +211,7 @@ func goodProgram() *telemetry.ProgramReport {
 		if vrnd.Chance(70) {
 			p.Counters = map[string]int64{}
 			for i := vrnd.Intn(3); i >= 0; i-- {
-				p.Counters[Pick(vrnd, []string{"editor:emacs", "editor:vim", "editor:vscode", "editor:other", "plain"})] = vrnd.Int63n(1000)
+				p.Counters[Pick(vrnd, []string{"editor:emacs", "editor:vim", "editor:vscode", "editor:other", "plain", "single:only", "single:only", "trail:a", "trail:"})] = vrnd.Int63n(1000)
 			}
 		}
 		if vrnd.Chance(40) {
@@ -221,7 +222,7 @@ func goodProgram() *telemetry.ProgramReport {
 	p := &telemetry.ProgramReport{Program: "cmd/go", Version: Pick(vrnd, []string{"go1.20", "go1.20.1", "go1.21.0"}),
 		GoVersion: Pick(vrnd, verifUploadConfig.GoVersion), GOOS: Pick(vrnd, verifUploadConfig.GOOS), GOARCH: Pick(vrnd, verifUploadConfig.GOARCH)}
 	if vrnd.Chance(70) {
-		p.Counters = map[string]int64{Pick(vrnd, []string{"go/invocations", "flag:a", "flag:b", "go/extra"}): vrnd.Int63n(1 << 40)}
+		p.Counters = map[string]int64{Pick(vrnd, []string{"go/invocations", "flag:a", "flag:b", "go/extra", "go/build/flag:buildmode", "go/build/flag:buildmode", "empty:", "open:x", "open:y"}): vrnd.Int63n(1 << 40)}
 	}
 	if vrnd.Chance(30) {
 		p.Stacks = map[string]int64{"go/crash\nmain.main:3": 2}
@@ -288,7 +289,11 @@ func confusedProgram() (*telemetry.ProgramReport, string) {
 		}
 		return Pick(vrnd, forGo)
 	}
-	switch vrnd.Intn(9) {
+	switch vrnd.Intn(10) {
+	case 9: // (j) the configuration's own (collapsed) spelling of a counter, or a piece of it, used as the counter name
+		p.Counters[pick([]string{"single:{only}", "single:", "single", "single:{only", "trail:{a,}", "trail:a,", "editor:{emacs,vim,vscode,other}", "editor:{vim}"},
+			[]string{"go/build/flag:{buildmode}", "go/build/flag:", "go/build/flag", "empty:{}", "empty", "open:{x,y", "open:x,y", "flag:{a,b}", "flag:{a}"})] = 1
+		return p, "collapsed-config-spelling-as-counter"
 	case 6: // (g) an approved counter name followed by a newline and free text: plain counters are judged by their WHOLE name
 		base := pick([]string{"editor:vim", "editor:emacs", "plain"}, []string{"go/invocations", "flag:a", "go/extra"})
 		p.Counters[base+Pick(vrnd, []string{"\n", "\n/home/alice/secret-project/main.go:12", "\nmain.main:3\nruntime.main:1", "\n\n", "\nx"})] = 1 + vrnd.Int63n(9)
